@@ -214,3 +214,17 @@ for _k, (_a, _b, _c) in _T.items():
 # properties whose theorem module is not complete yet are not claimed
 for _k in ():  # unclaimed
     PROPS[_k]["unclaimed"] = True
+
+# whole-instrument corollaries (Props/Instrument.lean: the library's own handlers as program messages) and the instrument
+# domain p21 are part of the checks of the properties they speak about
+_INSTR = "ScpiVerif.Props.Instrument"
+PROPS["C11"]["extra"] = [(_INSTR, ["status_invariant", "coherent_reachable_messages", "builtin_preserves_status", "stb_query"])]
+PROPS["C11"]["domains"] = PROPS["C11"]["domains"] + [{"name": "p21", "cfgs": ["A"], "keep": "P,H,S,Q"}]
+PROPS["C12"]["extra"] = [(_INSTR, ["cls_message", "esr_query_clears", "oper_event_query_clears", "ques_event_query_clears", "opc_sets_bit0",
+                                   "enable_roundtrip", "ese_roundtrip", "sre_roundtrip", "ques_enab_roundtrip", "oper_enab_roundtrip",
+                                   "enable_out_of_range", "enable_missing_parameter"])]
+PROPS["C12"]["domains"] = PROPS["C12"]["domains"] + [{"name": "p21", "cfgs": ["A"], "keep": "P,H,S,Q,E,Z"}]
+PROPS["C18"]["extra"] = [(_INSTR, ["syst_err_next", "syst_err_next_empty", "syst_err_count"])]
+PROPS["C18"]["domains"] = PROPS["C18"]["domains"] + [{"name": "p21", "cfgs": ["A"], "keep": "P,H,W"}]
+PROPS["C06"]["extra"] = [(_INSTR, ["idn_fields", "opcq_answers_1", "tst_answers_0"])]
+PROPS["C06"]["domains"] = PROPS["C06"]["domains"] + [{"name": "p21", "cfgs": ["A"], "keep": "P,H,W,F"}]
